@@ -1,5 +1,15 @@
 import XMT.CfgShow
+import XMT.Generated.Facts
 namespace XMT.Drv.C09
-/-- Line protocol of C09: every parsing entry point over arbitrary config bytes. -/
-def handle (args : List String) : String := XMT.Cfg.Show.handle args
+/-- Line protocol of C09: every parsing entry point over arbitrary config bytes.
+`xnext <hex> <i>` (session 3): the definition of `Config.next` REGENERATED from the source by the
+Go→Lean translator (`Facts.x_cfg_Config_next_run`: the definition applied, `panic` = index out of range; when the source
+leaves the translated fragment the answer is `unsupported` and the driver still builds). -/
+def handle (args : List String) : String :=
+  match args with
+  | ["xnext", c, i] =>
+    match ofHex c, XMT.Drv.intOf i with
+    | some c, some i => Facts.x_cfg_Config_next_run c i
+    | _, _ => "bad-op"
+  | _ => XMT.Cfg.Show.handle args
 end XMT.Drv.C09
